@@ -35,6 +35,7 @@ type codecStats struct {
 	evals                           int
 	regEvals                        int
 	offEvals                        int
+	reuseEvals                      int
 	offByLang                       map[string]int
 	offSkipped                      map[string]int
 	regStates                       map[string]bool
